@@ -50,6 +50,7 @@ type World struct {
 	allPkgs   []*types.Package
 	direct    map[string]*directSummary
 	nonnil    map[string]bool
+	guards    map[string]string
 	Errors    []string
 }
 
@@ -320,10 +321,42 @@ func (w *World) nonNilField(key string) bool {
 			}
 			for f, cls := range ts.Fields {
 				if strings.Contains(cls, "nonnil") {
+					if ts.Name == "$globals" {
+						w.nonnil["GV:"+pkg.Name+"."+f] = true
+						continue
+					}
 					w.nonnil["F:"+sanitize(pkg.Name+"."+ts.Name)+"."+f] = true
 				}
 			}
 		}
 	}
 	return w.nonnil[key]
+}
+
+// guardOf: lock field key guarding the given field heap key ("" if none):
+//   type T
+//     field f guarded_by mu
+func (w *World) guardOf(key string) string {
+	if w.guards == nil {
+		w.guards = map[string]string{}
+		for _, ts := range w.TypeSpec {
+			pkg := w.Pkgs[ts.PkgPath]
+			if pkg == nil {
+				continue
+			}
+			for f, cls := range ts.Fields {
+				fs := strings.Fields(cls)
+				for i, x := range fs {
+					if x == "guarded_by" && i+1 < len(fs) {
+						if ts.Name == "$globals" {
+							w.guards["GV:"+pkg.Name+"."+f] = "GV:" + pkg.Name + "." + fs[i+1]
+							continue
+						}
+						w.guards["F:"+sanitize(pkg.Name+"."+ts.Name)+"."+f] = "F:" + sanitize(pkg.Name+"."+ts.Name) + "." + fs[i+1]
+					}
+				}
+			}
+		}
+	}
+	return w.guards[key]
 }
